@@ -7,13 +7,21 @@ for f in sorted(glob.glob(os.path.join(V, "seeded", "*", "meta.json"))):
     m = json.load(open(f)); name = os.path.basename(os.path.dirname(f))
     det = []
     for k, v in sorted(m.get("detected_by", {}).items()):
+        if not re.match(r"C\d\d$", k):
+            continue
         lines = [l for l in v.get("verdict_lines", []) if l.startswith("VIOLATION")]
         if v.get("exit") == 1:
             kind = "concrete input" if any("no-failing-input-found" not in l for l in lines) else "model/impl disagreement only (no-failing-input-found)"
             det.append("%s: %s" % (k, kind))
-        else:
-            det.append("%s: not detected" % k)
+        elif k == name[:3]:
+            others = [o for o, w in m.get("detected_by", {}).items() if w.get("exit") == 1 and re.match(r"C\d\d$", o)]
+            det.append("%s: not detected%s" % (k, " (the neighbouring check does)" if others else ""))
     note = m.get("history_note", "")
+    first = m.get("first_run_before_strengthening")
+    if first and not note:
+        missed = [k for k, e in sorted(first.items()) if e == 0 and re.match(r"C\d\d$", k) and m.get("detected_by", {}).get(k, {}).get("exit") == 1]
+        if missed:
+            note = "first missed by %s; check strengthened (section 12, rounds)" % ", ".join(missed)
     rows.append("| `%s` | %s | %s | %s%s |" % (name, (m.get("summary") or "").replace("|", "/").replace("\n", " ")[:260],
                                               (m.get("needs") or "").replace("|", "/").replace("\n", " ")[:200], "; ".join(det),
                                               (" — " + note) if note else ""))
